@@ -468,15 +468,18 @@ class C18(Prop):
             txt = bytes(UP[c] for c in codes)
             ops = ["seed s=%d" % rng.randrange(1, 1 << 32)]
             for k in range(1, L + 2):
-                ops.append("ckmers s=%s k=%d ip=%d" % (hx(txt), k, k & 1))
-                ops.append("xkmers s=%s k=%d ip=%d" % (hx(codes), k, (k + 1) & 1))
-                ops.append("cwindows s=%s w=%d ip=%d" % (hx(txt), k, (k + 1) & 1))
-                ops.append("xwindows s=%s w=%d ip=%d" % (hx(codes), k, k & 1))
-            for o in ("cshuffle", "cshuffledp", "creverse", "cmarkov0", "cmarkov1"):
-                ops.append("%s s=%s ip=%d" % (o, hx(txt), L & 1))
-            ops.append("xshuffle s=%s ip=0" % hx(codes)); ops.append("xreverse s=%s ip=1" % hx(codes))
-            for o in ("xshuffledp", "xmarkov0", "xmarkov1"):
-                ops.append("%s s=%s K=%d ip=%d" % (o, hx(codes), K, (L + 1) & 1))
+                # round 6: separate AND in-place storage at every (L, k) / (L, w), k and w through L/2, L/2+1, L, L+1
+                for ip in (0, 1):
+                    ops.append("ckmers s=%s k=%d ip=%d" % (hx(txt), k, ip))
+                    ops.append("xkmers s=%s k=%d ip=%d" % (hx(codes), k, ip))
+                    ops.append("cwindows s=%s w=%d ip=%d" % (hx(txt), k, ip))
+                    ops.append("xwindows s=%s w=%d ip=%d" % (hx(codes), k, ip))
+            for ip in (0, 1):
+                for o in ("cshuffle", "cshuffledp", "creverse", "cmarkov0", "cmarkov1"):
+                    ops.append("%s s=%s ip=%d" % (o, hx(txt), ip))
+                ops.append("xshuffle s=%s ip=%d" % (hx(codes), ip)); ops.append("xreverse s=%s ip=%d" % (hx(codes), ip))
+                for o in ("xshuffledp", "xmarkov0", "xmarkov1"):
+                    ops.append("%s s=%s K=%d ip=%d" % (o, hx(codes), K, ip))
             ops.append("peek")
             out.append({"name": "sweep-L%d" % L, "ops": ops, "sticky": 1})
         # degenerate sizes, every routine, separate output and in place
@@ -503,14 +506,40 @@ class C18(Prop):
                     ops.append("msashuffle dig=1 abc=dna rows=%s ip=%d" % (",".join(hx(r) for r in drow), ip))
                     ops.append("vshuffle abc=dna rows=%s ip=%d" % (",".join(hx(r) for r in drow), ip))
                     if nseq >= 2 and alen >= 1:
-                        ops.append("cqrna abc=dna x=%s y=%s ip=%d" % (hx(trow[0]), hx(trow[1]), ip))
-                        ops.append("xqrna abc=dna x=%s y=%s ip=%d" % (hx(drow[0]), hx(drow[1]), ip))
+                        for m in (ip, ip + 2):      # 0 separate, 1 both in place, 2 only xs == x, 3 only ys == y
+                            ops.append("cqrna abc=dna x=%s y=%s ip=%d" % (hx(trow[0]), hx(trow[1]), m))
+                            ops.append("xqrna abc=dna x=%s y=%s ip=%d" % (hx(drow[0]), hx(drow[1]), m))
                 ops.append("bootstrap dig=0 abc=dna rows=%s ip=0" % ",".join(hx(r) for r in trow))
                 ops.append("bootstrap dig=1 abc=dna rows=%s ip=0" % ",".join(hx(r) for r in drow))
                 ops.append("permute dig=0 abc=dna rows=%s names=%s wgt=%s sqlen=%s acc=none desc=none ss=none sa=none pp=none gs=none gr=none" % (
                     ",".join(hx(r) for r in trow), ",".join(hx(b"n%d" % i) for i in range(nseq)), ",".join(str(i + 1) for i in range(nseq)), ",".join(str(10 + i) for i in range(nseq))))
                 ops.append("peek")
                 out.append({"name": "tiny-msa-%dx%d" % (nseq, alen), "ops": ops, "sticky": 1})
+        # vectors of 0, 1, 2, 3 entries through every esl_vec_* shuffle / reverse, separate and in place, 32- and 64-bit generator
+        for n in range(0, 4):
+            v = ",".join(str(rng.randrange(-9, 10)) for _ in range(n)) or "-"
+            ops = ["seed s=%d" % rng.randrange(1, 1 << 32)]
+            for ip in (0, 1):
+                for o in ("ishuffle", "dshuffle", "fshuffle", "lshuffle", "ireverse", "dreverse", "freverse", "lreverse", "vcreverse"):
+                    ops.append("%s v=%s ip=%d" % (o, v, ip))
+            ops.append("seed64 s=%d" % rng.randrange(1, 1 << 64))
+            ops += ["%sshuffle64 v=%s" % (t, v) for t in "dfil"] + ["peek64", "peek"]
+            out.append({"name": "tiny-vec-%d" % n, "ops": ops, "sticky": 1})
+        # alignment shufflers at the allocation-size coincidences of ESL_MSA (16/17 rows) and on a single long column / single row
+        for (nseq, alen) in ((1, 40), (40, 1), (16, 5), (17, 5), (1, 1), (2, 1), (1, 2)):
+            ops = ["seed s=%d" % rng.randrange(1, 1 << 32)]
+            trow = [bytes(rng.choice(b"ACGU-.") for _ in range(alen)) for _ in range(nseq)]
+            drow = [bytes(rng.choice([0, 1, 2, 3, 4, 4, 15, 16, 17]) for _ in range(alen)) for _ in range(nseq)]
+            for ip in (0, 1):
+                ops.append("msashuffle dig=0 abc=dna rows=%s ip=%d" % (",".join(hx(r) for r in trow), ip))
+                ops.append("msashuffle dig=1 abc=dna rows=%s ip=%d" % (",".join(hx(r) for r in drow), ip))
+                ops.append("vshuffle abc=dna rows=%s ip=%d" % (",".join(hx(r) for r in drow), ip))
+            ops.append("bootstrap dig=0 abc=dna rows=%s ip=0" % ",".join(hx(r) for r in trow))
+            ops.append("bootstrap dig=1 abc=dna rows=%s ip=0" % ",".join(hx(r) for r in drow))
+            ops.append("permute dig=1 abc=dna rows=%s names=%s wgt=%s sqlen=%s acc=none desc=none ss=none sa=none pp=none gs=none gr=none" % (
+                ",".join(hx(r) for r in drow), ",".join(hx(b"n%d" % i) for i in range(nseq)), ",".join(str(i + 1) for i in range(nseq)), ",".join(str(10 + i) for i in range(nseq))))
+            ops.append("peek")
+            out.append({"name": "msa-%dx%d" % (nseq, alen), "ops": ops, "sticky": 1})
         # the upper limit of the quantifier
         for L in ((5000,) if ctx.tier == "quick" else (4999, 5000)):
             K = rng.choice([2, 4, 20, 26])
@@ -754,6 +783,95 @@ class C18(Prop):
             return "emitted adjacent pair %r that does not occur in the (circular) input" % (bad[0],) if bad else None
         return None
 
+    # ------------------------------------------------------------------ API coverage (round 6)
+    # public symbol -> (ops of the line protocol that call it, property theorems about it, has an output buffer that may alias the input)
+    API = {
+        "esl_rsq_Sample":          (["sample"], ["rsqSample_spec", "rsqSample_uniform"], False),
+        "esl_rsq_IID":             (["iid"], ["iid_support", "iid_never_fatal", "iid_support_ieee_negzero", "iid_never_fatal_ieee"], False),
+        "esl_rsq_fIID":            (["fiid"], ["iid_support", "iid_never_fatal"], False),
+        "esl_rsq_xIID":            (["xiid"], ["iid_support", "iid_uniform", "iidUniform_exact", "iid_never_fatal"], False),
+        "esl_rsq_xfIID":           (["xfiid"], ["iid_support", "iid_never_fatal"], False),
+        "esl_rsq_SampleDirty":     (["sampledirty"], ["sampleDirty_never_gap", "sampleDirty_sampled_vector_zeros"], False),
+        "esl_rsq_CShuffle":        (["cshuffle"], ["cShuffle_perm", "cShuffle_bijective_on_rolls", "cShuffle_counts", "shuffle_inplace_eq_separate"], True),
+        "esl_rsq_CShuffleDP":      (["cshuffledp"], ["cShuffleDP_ok", "cShuffleDP_status", "shuffleDP_spec", "shuffleDP_checks_never_fire"], True),
+        "esl_rsq_CShuffleKmers":   (["ckmers"], ["cShuffleKmers_spec", "shuffleKmers_via_rolls", "shuffleKmers_inplace_eq_separate"], True),
+        "esl_rsq_CReverse":        (["creverse"], ["cReverse_spec", "cReverse_inplace_spec"], True),
+        "esl_rsq_CShuffleWindows": (["cwindows"], ["cShuffleWindows_spec", "shuffleWindows_inplace_eq_separate", "cShuffleWindows_pair_always_swapped"], True),
+        "esl_rsq_CMarkov0":        (["cmarkov0"], ["cMarkov0_spec", "cMarkov0_einval_or_ok", "markov0_frequencies_exact"], True),
+        "esl_rsq_CMarkov1":        (["cmarkov1"], ["cMarkov1_spec", "cMarkov1_einval_or_ok", "markov1_counts_exact", "markov1_conditional_exact"], True),
+        "esl_rsq_XShuffle":        (["xshuffle"], ["xShuffle_spec", "xShuffle_bijective_on_rolls", "xShuffle_inplace_eq_separate"], True),
+        "esl_rsq_XShuffleDP":      (["xshuffledp"], ["xShuffleDP_ok", "xShuffleDP_status", "shuffleDP_spec", "shuffleDP_checks_never_fire"], True),
+        "esl_rsq_XShuffleKmers":   (["xkmers"], ["xShuffleKmers_spec", "shuffleKmers_via_rolls", "shuffleKmers_inplace_eq_separate"], True),
+        "esl_rsq_XReverse":        (["xreverse"], ["xReverse_spec", "reverse_inplace_eq"], True),
+        "esl_rsq_XShuffleWindows": (["xwindows"], ["xShuffleWindows_spec", "xShuffleWindows_window_bijective_on_rolls", "xShuffleWindows_inplace_eq_separate"], True),
+        "esl_rsq_XMarkov0":        (["xmarkov0"], ["xMarkov0_spec", "xMarkov0_einval_or_ok", "markov0_frequencies_exact"], True),
+        "esl_rsq_XMarkov1":        (["xmarkov1"], ["xMarkov1_spec", "xMarkov1_einval_or_ok", "markov1_counts_exact", "markov1_conditional_exact"], True),
+        "esl_msashuffle_Shuffle":  (["msashuffle"], ["msaShuffle_spec", "msaShuffle_via_rolls", "msaShuffle_inplace_eq_separate"], True),
+        "esl_msashuffle_Bootstrap": (["bootstrap"], ["bootstrap_only_input_columns", "bootstrap_exact"], False),
+        "esl_msashuffle_VShuffle": (["vshuffle"], ["vShuffle_spec", "vShuffle_inplace_eq"], True),
+        "esl_msashuffle_PermuteSequenceOrder": (["permute"], ["permuteSeqOrder_spec", "permuteSeqOrder_index_spec"], False),
+        "esl_msashuffle_CQRNA":    (["cqrna"], ["qrna_keeps_classes", "qrna_class_perm", "qrna_inplace_eq_separate", "qrna_status"], True),
+        "esl_msashuffle_XQRNA":    (["xqrna"], ["qrna_keeps_classes", "qrna_class_perm", "qrna_inplace_eq_separate", "qrna_status"], True),
+        "esl_vec_DShuffle":        (["dshuffle"], ["cShuffle_perm", "fisherYates_bijective_on_rolls"], False),
+        "esl_vec_FShuffle":        (["fshuffle"], ["cShuffle_perm", "fisherYates_bijective_on_rolls"], False),
+        "esl_vec_IShuffle":        (["ishuffle"], ["cShuffle_perm", "fisherYates_bijective_on_rolls"], False),
+        "esl_vec_LShuffle":        (["lshuffle"], ["cShuffle_perm", "fisherYates_bijective_on_rolls"], False),
+        "esl_vec_DShuffle64":      (["dshuffle64"], ["vecShuffle64_perm", "vecShuffle64_via_rolls"], False),
+        "esl_vec_FShuffle64":      (["fshuffle64"], ["vecShuffle64_perm", "vecShuffle64_via_rolls"], False),
+        "esl_vec_IShuffle64":      (["ishuffle64"], ["vecShuffle64_perm", "vecShuffle64_via_rolls"], False),
+        "esl_vec_LShuffle64":      (["lshuffle64"], ["vecShuffle64_perm", "vecShuffle64_via_rolls"], False),
+        "esl_vec_DReverse":        (["dreverse"], ["cReverse_spec", "cReverse_inplace_spec"], True),
+        "esl_vec_FReverse":        (["freverse"], ["cReverse_spec", "cReverse_inplace_spec"], True),
+        "esl_vec_IReverse":        (["ireverse"], ["cReverse_spec", "cReverse_inplace_spec"], True),
+        "esl_vec_LReverse":        (["lreverse"], ["cReverse_spec", "cReverse_inplace_spec"], True),
+        "esl_vec_CReverse":        (["vcreverse"], ["cReverse_spec", "cReverse_inplace_spec"], True),
+        # esl_random.c: the three primitives the anchored routines draw through (never called by the harness directly: every op above reaches them)
+        "esl_rnd_Roll":            (["cshuffle", "poke"], ["roll_on_generator_words", "roll_returns_spec", "roll_progress", "roll_reaches_every_value"], False),
+        "esl_rnd_DChoose":         (["iid", "xiid", "cmarkov0", "cmarkov1", "xmarkov0", "xmarkov1", "fplaws"], ["dchoose_returns", "dchoose_inverse_cdf", "ieee_carrier_lawful", "ieee_L5"], False),
+        "esl_rnd_FChoose":         (["fiid", "xfiid"], ["iid_support", "ieee_carrier_lawful"], False),
+    }
+    # public symbols of the anchored headers that no routine of the property calls (listed so that the table is complete)
+    API_OUT_OF_SCOPE = {"esl_rnd_DChooseCDF": "categorical choice from a caller-made CDF: not used by esl_randomseq.c / esl_msashuffle.c",
+                        "esl_rnd_FChooseCDF": "same, float"}
+
+    def api_coverage(self, ctx, opcount):
+        """mechanical coverage table: every public symbol of esl_randomseq.h and esl_msashuffle.h, the Shuffle/Shuffle64/Reverse families of
+        esl_vectorops.h and the Roll/Choose primitives of esl_random.h, read from the WORKING TREE's headers, against the ops (present in the
+        harness source, the Lean driver source and the generated cases, both storage modes where an output buffer exists) and SPEC.theorems"""
+        import re, os
+        def externs(h, pat):
+            txt = open(os.path.join(ctx.src, h)).read()
+            return [m for m in re.findall(r"^extern\s+[^;(]*?\b(esl_\w+)\s*\(", txt, re.M) if re.search(pat, m)]
+        syms = (externs("esl_randomseq.h", r"^esl_rsq_") + externs("esl_msashuffle.h", r"^esl_msashuffle_") +
+                externs("esl_vectorops.h", r"(Shuffle|Shuffle64|Reverse)$") + externs("esl_random.h", r"^esl_rnd_(Roll|[DF]Choose(CDF)?)$"))
+        here = os.path.dirname(os.path.dirname(os.path.abspath(__file__)))
+        hsrc = open(os.path.join(here, "harness", self.harness)).read()
+        dsrc = open(os.path.join(here, "lean", "Driver", "C18.lean")).read()
+        short = {t.rsplit(".", 1)[1] for t in self.theorems}
+        table, uncovered = {}, []
+        for sym in syms:
+            if sym in self.API_OUT_OF_SCOPE:
+                table[sym] = {"status": "out-of-scope", "why": self.API_OUT_OF_SCOPE[sym]}; continue
+            if sym not in self.API:
+                table[sym] = {"status": "UNCOVERED"}; uncovered.append(sym + ": no op, no theorem"); continue
+            ops, ths, aliasable = self.API[sym]
+            probs = []
+            for o in ops:
+                if '"%s"' % o not in hsrc: probs.append("op %s not in the harness" % o)
+                if '"%s"' % o not in dsrc: probs.append("op %s not in the Lean driver" % o)
+                if not sum(v for (w, ip), v in opcount.items() if w == o): probs.append("op %s never generated" % o)
+            if not sym.startswith("esl_rnd_") and not re.search(r"\b%s\s*\(" % sym, hsrc): probs.append("the harness never calls it")
+            for t in ths:
+                if t not in short: probs.append("theorem %s is not in SPEC.theorems" % t)
+            modes = sorted({ip for (w, ip), v in opcount.items() if w == ops[0] and ip is not None})
+            if aliasable and not {"0", "1"} <= set(modes): probs.append("storage modes generated: %s" % modes)
+            table[sym] = {"status": "covered" if not probs else "GAP", "ops": ops, "theorems": ths, "calls": sum(v for (w, ip), v in opcount.items() if w in ops),
+                          "storage_modes": modes if aliasable else None, **({"problems": probs} if probs else {})}
+            if probs: uncovered.append(sym + ": " + "; ".join(probs))
+        stale = sorted(set(self.API) - set(syms))
+        return {"symbols": len(syms), "covered": sum(1 for v in table.values() if v["status"] == "covered"), "uncovered": uncovered,
+                "table_entries_without_a_public_symbol": stale, "table": table}
+
     def extra_evidence(self, ctx):
         # measured input distribution of the generated cases (re-generated with the same seed)
         import random, os
@@ -761,13 +879,25 @@ class C18(Prop):
         ctx2 = type("C", (), {})(); ctx2.tier = ctx.tier
         ctx2.rng = random.Random(ctx.seed * 7919 + 13)
         ops = Counter(); lens = Counter(); n = 0
-        for c in self.corpus(ctx2) + self.cases(ctx2)[:3000]:
+        allcases = self.corpus(ctx2) + self.cases(ctx2)
+        opcount = Counter()
+        for c in allcases:
+            for o in c["ops"]:
+                w = o.split()[0]
+                if w == "fplaws": opcount[("fplaws", None)] += 1; continue
+                m = [x[3:] for x in o.split()[1:] if x.startswith("ip=")]
+                opcount[(w, m[0] if m else None)] += 1
+        cov = self.api_coverage(ctx, opcount)
+        if cov["uncovered"] or cov["table_entries_without_a_public_symbol"]:
+            print("[verif] C18 note: API coverage gaps: %s %s" % (cov["uncovered"], cov["table_entries_without_a_public_symbol"]))
+        for c in allcases[:len(self.corpus(ctx2)) + 3000]:
             for o in c["ops"]:
                 w = o.split()[0]; ops[w] += 1; a = kv(o)
                 if "s" in a and not w.startswith("seed"):
                     L = len(unhx(a["s"])); lens["0" if L == 0 else "1-2" if L <= 2 else "3-39" if L < 40 else "40-299" if L < 300 else "300-5000"] += 1
             n += 1
         return {"input_distribution": {"sampled_cases": n, "ops": dict(ops), "sequence_lengths": dict(lens)},
+                "api_coverage": cov,
                 "window_roll_range_read_from_tree": getattr(self, "_win", None),
                 "fplaws_calls": self._laws[0], "fplaws_instances_checked": self._laws[1],
                 "mutations_caught": "round 4: automatic single-site sweep (tools/mutsweep.py) over esl_msashuffle.c and the modelled functions of esl_randomseq.c: 110 mutants, 91 killed, 19 survivors all classified "
